@@ -4,7 +4,8 @@ from __future__ import annotations
 import ast
 
 from ..cfg import CFG, stored_paths
-from ..core import (AnalysisError, DefRef, NotConst, Ref, call_name, calls_in, dotted, enclosing_conditions, func_params, get_kw, norm,
+from .. import logic
+from ..core import (expand_aliases, single_assign_aliases, AnalysisError, DefRef, NotConst, Ref, call_name, calls_in, dotted, enclosing_conditions, func_params, get_kw, norm,
                     qualname_of, walk_no_nested)
 
 PROPERTY = "C15"
@@ -86,6 +87,14 @@ class SeqEval:
                     touched = {t.id for s0 in st.body + st.orelse for n in ast.walk(s0) if isinstance(n, ast.Assign) for t in n.targets if isinstance(t, ast.Name)}
                     if touched & set(self.env):
                         raise AnalysisError(f"R15.3: order-relevant variable assigned under `{norm(st.test)}` - not modelled")
+            elif isinstance(st, ast.Expr) and isinstance(st.value, ast.Call) and isinstance(st.value.func, ast.Attribute) and isinstance(st.value.func.value, ast.Name) \
+                    and st.value.func.value.id in self.env:
+                # in-place operations on a tracked sequence
+                nm_, op = st.value.func.value.id, st.value.func.attr
+                if op == "reverse" and not st.value.args:
+                    self.env[nm_] = seq_rev(self.env[nm_])
+                elif op in ("sort", "insert", "pop", "remove", "extend", "append", "clear"):
+                    raise AnalysisError(f"R15.3: in-place {op}() on an order-relevant sequence - not modelled")
             elif isinstance(st, (ast.Return, ast.Expr)):
                 pass
 
@@ -301,11 +310,25 @@ def run(ctx):
         facts = {(t, pol) for t, pol, _ in mcfg.facts_at(node.id)}
         key = norm(s0.slice)
         cont = norm(s0.value)
-        skip = (f"not replace and {key} in {cont}", False) in facts or ((f"{key} in {cont}", False) in facts) or (("replace", True) in facts)
+        flag4 = func_params(mr)[1] if len(func_params(mr)) > 1 else "replace"
+        skip = logic.implies(logic.facts_as_premises(mcfg.facts_at(node.id)), logic.parse(f"{flag4} or {key} not in {cont}"))
         ctx.check(skip, "R15.4", "merge_record_descriptors:first-wins", f"a later descriptor overwrites the type of `{key}` even without replace (facts: {sorted(facts)})", s0,
                   f"store guarded by not(not replace and {key} in {cont})", key="R15.4:merge_record_descriptors:overwrites")
     rv = [r for r in walk_no_nested(mr) if isinstance(r, ast.Return)]
-    ctx.check(len(rv) == 1 and "zip(" in norm(rv[0].value) and ".values()" in norm(rv[0].value) and ".keys()" in norm(rv[0].value), "R15.4", "merge_record_descriptors:result",
+    fmap = norm(stores[0].value) if stores else "field_map"
+    mal = single_assign_aliases(mr)
+    res_ok = False
+    if len(rv) == 1 and isinstance(rv[0].value, ast.Call) and len(rv[0].value.args) >= 2:
+        pairs = expand_aliases(rv[0].value.args[1], mal)
+        if isinstance(pairs, ast.Call) and call_name(pairs) in ("list", "tuple") and len(pairs.args) == 1:
+            pairs = pairs.args[0]
+        if isinstance(pairs, ast.Call) and call_name(pairs) == "zip" and [norm(a) for a in pairs.args] == [f"{fmap}.values()", f"{fmap}.keys()"]:
+            res_ok = True
+        if isinstance(pairs, (ast.ListComp, ast.GeneratorExp)) and len(pairs.generators) == 1 and not pairs.generators[0].ifs and norm(pairs.generators[0].iter) == f"{fmap}.items()" \
+                and isinstance(pairs.generators[0].target, ast.Tuple) and len(pairs.generators[0].target.elts) == 2 and isinstance(pairs.elt, ast.Tuple) \
+                and [norm(x) for x in pairs.elt.elts] == [norm(x) for x in reversed(pairs.generators[0].target.elts)]:
+            res_ok = True
+    ctx.check(res_ok, "R15.4", "merge_record_descriptors:result",
               "the merged descriptor is not built from (type, name) pairs in insertion order", mr, "RecordDescriptor(name, zip(types, names))")
     nm = [st for st in walk_no_nested(mr) if isinstance(st, ast.Assign) and norm(st.targets[0]) == "name"]
     ctx.check(bool(nm) and "descriptors[0].name" in norm(nm[0].value) and ("name is None and descriptors", True) in enclosing_conditions(nm[0], mr), "R15.4", "merge_record_descriptors:name",
@@ -338,8 +361,19 @@ def run(ctx):
         raise AnalysisError("R15.5: loop over datetime fields not found")
     fv = norm(loop.target)
     tcalls = [c for c in ast.walk(loop) if isinstance(c, ast.Call) and norm(c.func) == "TimestampRecord"]
-    ok = len(tcalls) == 1 and len(tcalls[0].args) == 2 and isinstance(tcalls[0].args[0], ast.Call) and call_name(tcalls[0].args[0]) == "getattr" \
-        and norm(tcalls[0].args[0].args[1]) == f"{fv}.name" and norm(tcalls[0].args[1]) == f"{fv}.name"
+    ok = False
+    if len(tcalls) == 1 and fields:
+        order = [n for _, n in fields]
+        bound = dict(zip(order, tcalls[0].args))
+        for k in tcalls[0].keywords:
+            if k.arg in order and k.arg not in bound:
+                bound[k.arg] = k.value
+        a_ts, a_desc = bound.get("ts"), bound.get("ts_description")
+        ial5 = single_assign_aliases(loop)
+        a_ts = expand_aliases(a_ts, ial5) if a_ts is not None else None
+        a_desc = expand_aliases(a_desc, ial5) if a_desc is not None else None
+        ok = len(bound) == 2 and len(tcalls[0].args) + len(tcalls[0].keywords) == 2 and isinstance(a_ts, ast.Call) and call_name(a_ts) == "getattr" and len(a_ts.args) == 2 \
+            and norm(a_ts.args[1]) == f"{fv}.name" and norm(a_desc) == f"{fv}.name"
     ctx.check(ok, "R15.5", "iter_timestamped_records:ts-record", "the timestamp record is not TimestampRecord(getattr(<record>, field.name), field.name)", loop,
               "ts = value of the field, ts_description = its name", key="R15.5:iter_timestamped_records:ts-record")
     ecalls = [c for c in ast.walk(loop) if isinstance(c, ast.Call) and getattr(prog.resolve_expr(base, c.func), "qualname", "").endswith("extend_record")]
